@@ -3,7 +3,9 @@ HOOK_COMMITS = []
 NOTES = ("All checks are static: they read facts extracted from /repo's current working tree on every run "
          "(MIR via a rustc_private driver under the real cargo build, syntax via syn, templates via Tera's own parser) "
          "and never execute the tool, its tests or a model of it.  Clauses that are not decidable from the shape of "
-         "the code are listed per property in evidence.coverage.not_decided and DESIGN.md §6.")
+         "the code are listed per property in evidence.coverage.not_decided and DESIGN.md §6.  The thorough tier lifts the path-enumeration caps and, for C13 and C15, "
+         "cross-checks the completeness of the UNORD / PANIC site enumerations against rustc's own opt-in lint passes (clippy::iter_over_hash_type, "
+         "clippy::string_slice, clippy::indexing_slicing) run on /repo's current tree (rules/crossref.py).")
 ENGINE_A = []
 ENGINE_B = []
 TABLE = {}
